@@ -43,7 +43,7 @@ class Prop(BaseProp):
         mod = b.module()
         if kind == "none":
             return render(mod, Layout(rng, comments=0.1, wild=0.1)), None
-        name = "" if kind == "unnamed" else rng.choice(["modN0Z", "my.mod-N0Z", "ns::N0Z", "My Module N0Z", "m", "module", "x@module"])
+        name = "" if kind == "unnamed" else rng.choice(["modN0Z", "my.mod-N0Z", "ns::N0Z", "My Module N0Z", "m", "module", "x@module", "modül N0Z", "日本語N0Z", "a.cmake.b"])
         nbody = rng.choice([0, 0, 1, 3])
         mod.module_doc = [f"{{L0.{k}}} module text" if rng.random() < 0.8 else "" for k in range(nbody)]
         mod.module_name = name
@@ -106,7 +106,7 @@ class Prop(BaseProp):
         ext_t, ext_m = rng.random() < 0.4, rng.random() < 0.4
         headers = list(rng.choice(HEADERS))
         prefix_src = rng.choice(["none", "none", "cli", "config"])
-        prefix = None if prefix_src == "none" else rng.choice(["Pfx", "my.pkg", "A B", "p-1"])
+        prefix = None if prefix_src == "none" else rng.choice(["Pfx", "my.pkg", "A B", "p-1", "Prä✓", "日本"])
         single = idx % 3 == 0
         res.sig = sig_hash([single, sep, ext_t, ext_m, len(headers), prefix_src])
         res.see("separators", sep)
@@ -125,7 +125,7 @@ class Prop(BaseProp):
             if single:
                 d = os.path.join(sb, "w", rng.choice(["", "deep/er"]))
                 os.makedirs(d, exist_ok=True)
-                fname = rng.choice(["single.cmake", "a.b.cmake", "find-foo.cmake"])
+                fname = rng.choice(["single.cmake", "a.b.cmake", "find-foo.cmake", "x.cmake.y.cmake", "ünï.cmake"])
                 path = os.path.join(d, fname)
                 text, mdoc = self.module_text(rng, fname, res)
                 with open(path, "w") as f:
